@@ -56,17 +56,46 @@ type mpUniverse struct {
 }
 
 type mpSys struct {
-	w      *drv.World
-	m      *model.MPModel
-	u      *mpUniverse
-	prop   string
-	bucket string
-	inits  int
-	allIDs map[string]bool
-	last   string
+	w           *drv.World
+	m           *model.MPModel
+	u           *mpUniverse
+	prop        string
+	bucket      string
+	inits       int
+	allIDs      map[string]bool
+	last        string
+	burned      bool
+	searchInits int
 }
 
 const mpMetaKey = "x-amz-meta-up"
+
+// newMPSysBurn starts from a non-initial uploader: n uploads have been initiated and aborted
+// before the search begins, so that the ids handed out during the search cross the 9 -> 10
+// boundary (upload ids are decimal counters compared as strings in places).
+func newMPSysBurn(cfg drv.Config, u *mpUniverse, prop string, n int) (*mpSys, error) {
+	s, err := newMPSys(cfg, u, prop)
+	if err != nil {
+		return nil, err
+	}
+	for i := 0; i < n; i++ {
+		r := s.w.Do(drv.Req{Method: "POST", Path: "/aaa/burn", Query: "uploads"})
+		x := r.XML()
+		if x == nil {
+			return nil, fmt.Errorf("setup burn: %s", r.Short())
+		}
+		id := x.T("UploadId")
+		s.allIDs[id] = true
+		if d := s.w.Do(drv.Req{Method: "DELETE", Path: "/aaa/burn", Query: drv.Q("uploadId", id)}); d.Status != 204 {
+			return nil, fmt.Errorf("setup burn abort: %s", d.Short())
+		}
+	}
+	if n > 0 {
+		s.inits = 1 // the bucket has had uploads initiated (C14 precondition)
+		s.burned = true
+	}
+	return s, nil
+}
 
 func newMPSys(cfg drv.Config, u *mpUniverse, prop string) (*mpSys, error) {
 	w, err := drv.NewWorld(cfg)
@@ -192,7 +221,7 @@ func (s *mpSys) completeLists(u *model.MUpload) []mpOp {
 
 func (s *mpSys) Ops() []engine.Op {
 	var ops []engine.Op
-	if len(s.m.Uploads) < s.u.maxOpen && s.inits < s.u.maxInit {
+	if len(s.m.Uploads) < s.u.maxOpen && s.searchInits < s.u.maxInit {
 		for _, k := range s.u.keys {
 			ops = append(ops, mpOp{kind: "initiate", k: k})
 		}
@@ -277,6 +306,7 @@ func (s *mpSys) apply(op engine.Op) (string, *engine.Violation) {
 		}
 		s.allIDs[id] = true
 		s.inits++
+		s.searchInits++
 		s.m.Initiate(id, o.k, meta)
 		return "200", nil
 	case "part":
@@ -428,6 +458,15 @@ func mpPlans(c *engine.Ctx) ([]drv.Config, *mpUniverse, int) {
 
 func runMP(c *engine.Ctx, prop string) {
 	cfgs, u, depth := mpPlans(c)
+	// same-key uploads whose ids cross the 9 -> 10 boundary (start from a non-initial uploader)
+	{
+		cfg := drv.Config{Kind: drv.Mem}
+		bu := &mpUniverse{keys: []string{"a", "b/c"}, partNums: []int{1}, bodies: []string{"a"}, maxOpen: 4, maxInit: 5, maxParts: 1}
+		name := prop + "/mem/ids-from-9"
+		engine.RunSeq(c, engine.SeqSpec{Name: name, World: "mem", MaxDepth: 4,
+			New: func() (engine.Sys, error) { return newMPSysBurn(cfg, bu, prop, 8) }})
+		c.Bounds[name] = map[string]interface{}{"keys": bu.keys, "pre_burned_upload_ids": 8, "max_open_uploads": bu.maxOpen, "history_depth": 4}
+	}
 	for i, cfg := range cfgs {
 		cfg := cfg
 		d := depth
